@@ -8,7 +8,7 @@ import z3
 from checks.common import Check, VERIF
 from pyvc.interp import Program
 from pyvc import solve, models
-from contracts import lattice as K, lattice_vc as V, prune as P, orchestration as OC, match_fn as MF
+from contracts import lattice as K, lattice_vc as V, prune as P, orchestration as OC, match_fn as MF, ne_levels as NL
 from rtc import runner, suites
 
 
@@ -32,6 +32,9 @@ def catalog(prog, tier):
         'path_tail': lambda: [OC.vc_build_node_path_tail(prog, u) for u in (True, False)],
         'backtrack': lambda: [OC.vc_build_matching_path(prog, d) for d in (False, True)],
         'match': lambda: [MF.vc_match(prog, ex, sp, w) for ex, sp, w in ((False, False, False), (True, False, False), (True, True, False), (False, False, True), (True, False, True))],
+        'ne_levels': lambda: [NL.vc_ne_levels(prog, w, ex) for w in (False, True) for ex in (False, True)],
+        'visited': lambda: [NL.vc_node_in_prev_ne(prog, k) for k in ('edge', 'node')],
+        'ne_depth': lambda: [NL.vc_ne_depth_bound(prog)],
         'ne_end': lambda: [OC.vc_ne_end(prog, k, f) for k, f in (('node', 'base'), ('edge', 'base'), ('edge', 'distance'))],
         'ne_inner': lambda: [OC.vc_ne_inner(prog, k, f) for k, f in (('node', 'base'), ('edge', 'base'), ('edge', 'distance'))],
         'trans': lambda: [V.vc_trans_distance(prog, o, h) for o in (True, False) for h in (True, False)] +
